@@ -3,7 +3,7 @@
 # against a scratch worktree, /repo untouched) all mutants under /tmp/mut/<NAME>.out/m*
 cd "$(dirname "$0")/.."
 dirs=()
-for id in "$@"; do for d in /tmp/mut/$id.out/m*; do [ -f "$d/patch.diff" ] && [ -f "$d/meta.json" ] && dirs+=("$d"); done; done
+for id in "$@"; do for d in ${MUTROOT:-/tmp/mut}/$id.out/m*; do [ -f "$d/patch.diff" ] && [ -f "$d/meta.json" ] && dirs+=("$d"); done; done
 printf '%s\n' "${dirs[@]}" | xargs -P 4 -I{} sh -c '[ -f {}/confirm.json ] || python3 lib/seedtest.py {} --confirm-only > {}/confirm.log 2>&1'
 for d in "${dirs[@]}"; do
   name=$(basename $(dirname $d) .out); k=$(basename $d)
